@@ -2,6 +2,6 @@ SPECIFICATION Spec
 CONSTANTS
   Variant = "ref"
   Setup <- SetupBaseA
-  ProgChoices <- ProgsThorough
+  ProgChoices <- ProgsThoroughAll
 INVARIANTS Inv_ConcPure Inv_NoRace Inv_NotStuck Inv_CacheAgree
 CHECK_DEADLOCK FALSE
